@@ -25,13 +25,13 @@ namespace LatLemmas
 theorem det_def (B : Mat3 ℝ) : Mat3.det B = B.m00 * (B.m11 * B.m22 - B.m12 * B.m21)
     - B.m01 * (B.m10 * B.m22 - B.m12 * B.m20) + B.m02 * (B.m10 * B.m21 - B.m11 * B.m20) := rfl
 
-theorem mul_inv_cancel (B : Mat3 ℝ) (h : Mat3.det B ≠ 0) : Mat3.mul B (Mat3.inv B) = Mat3.one := by
+theorem m3_mul_inv_cancel (B : Mat3 ℝ) (h : Mat3.det B ≠ 0) : Mat3.mul B (Mat3.inv B) = Mat3.one := by
   have hd := det_def B
   lsimp
   generalize Mat3.det B = d at *
   congr 1 <;> (field_simp; first | ring1 | linear_combination hd | linear_combination -hd)
 
-theorem inv_mul_cancel (B : Mat3 ℝ) (h : Mat3.det B ≠ 0) : Mat3.mul (Mat3.inv B) B = Mat3.one := by
+theorem m3_inv_mul_cancel (B : Mat3 ℝ) (h : Mat3.det B ≠ 0) : Mat3.mul (Mat3.inv B) B = Mat3.one := by
   have hd := det_def B
   lsimp
   generalize Mat3.det B = d at *
@@ -48,7 +48,7 @@ theorem det_one : Mat3.det (Mat3.one : Mat3 ℝ) = 1 := by
 
 theorem det_inv (B : Mat3 ℝ) (h : Mat3.det B ≠ 0) : Mat3.det (Mat3.inv B) = 1 / Mat3.det B := by
   have := det_mul B (Mat3.inv B)
-  rw [mul_inv_cancel B h, det_one] at this
+  rw [m3_mul_inv_cancel B h, det_one] at this
   field_simp
   linarith
 
@@ -68,19 +68,19 @@ theorem transpose_transpose (A : Mat3 ℝ) : Mat3.transpose (Mat3.transpose A) =
 
 theorem transpose_one : Mat3.transpose (Mat3.one : Mat3 ℝ) = Mat3.one := rfl
 
-theorem mul_assoc (A B C : Mat3 ℝ) : Mat3.mul (Mat3.mul A B) C = Mat3.mul A (Mat3.mul B C) := by
+theorem m3_mul_assoc (A B C : Mat3 ℝ) : Mat3.mul (Mat3.mul A B) C = Mat3.mul A (Mat3.mul B C) := by
   lsimp; congr 1 <;> ring
 
-theorem mul_one (A : Mat3 ℝ) : Mat3.mul A Mat3.one = A := by cases A; lsimp; simp
-theorem one_mul (A : Mat3 ℝ) : Mat3.mul Mat3.one A = A := by cases A; lsimp; simp
+theorem m3_mul_one (A : Mat3 ℝ) : Mat3.mul A Mat3.one = A := by cases A; lsimp; simp
+theorem m3_one_mul (A : Mat3 ℝ) : Mat3.mul Mat3.one A = A := by cases A; lsimp; simp
 
 /-- the transpose of the inverse is the inverse of the transpose -/
 theorem transpose_inv_mul (B : Mat3 ℝ) (h : Mat3.det B ≠ 0) :
     Mat3.mul (Mat3.transpose (Mat3.inv B)) (Mat3.transpose B) = Mat3.one := by
-  rw [← transpose_mul, mul_inv_cancel B h, transpose_one]
+  rw [← transpose_mul, m3_mul_inv_cancel B h, transpose_one]
 theorem transpose_mul_inv (B : Mat3 ℝ) (h : Mat3.det B ≠ 0) :
     Mat3.mul (Mat3.transpose B) (Mat3.transpose (Mat3.inv B)) = Mat3.one := by
-  rw [← transpose_mul, inv_mul_cancel B h, transpose_one]
+  rw [← transpose_mul, m3_inv_mul_cancel B h, transpose_one]
 
 /-! ### the constructor guards -/
 
@@ -196,7 +196,7 @@ theorem unit_of_unit {v : Vec3 ℝ} (h : Vec3.normSq v = 1) : Vec3.unit v = v :=
 /-! ### decimal rounding -/
 
 theorem floorS_real (x : ℝ) : floorS x = (⌊x⌋ : ℝ) := by
-  simp only [floorS, fmod_real, lit_real, Nat.cast_one, div_one, mul_one]; ring
+  simp only [floorS, fmod_real, lit_real, Nat.cast_one, div_one]; ring
 
 /-- `rint t` is an integer within 1/2 of `t` -/
 theorem rint_spec (t : ℝ) : |rint t - t| ≤ 1 / 2 ∧ ∃ n : ℤ, rint t = n := by
